@@ -18,6 +18,13 @@ def pattern(n, seed, alpha):
 
 def gen_history(rng, nops):
     ops = ["PB new"]
+    if rng.random() < 0.03:
+        # large-buffer phase: capacity beyond 64 KiB, then single requests between 1x and 3x the current capacity
+        ops.append("PB app a %d %d" % (rng.choice([66000, 70000, 100000]), rng.getrandbits(16)))
+        for _ in range(rng.choice([1, 2, 3])):
+            ops.append("PB app a %d %d" % (rng.choice([100000, 120000, 180000, 250000, 400000]), rng.getrandbits(16)))
+            ops.append(rng.choice(["PB set b 5 65 la 150000", "PB fmt a 90000 7", "PB app a 3 9"]))
+        nops = 6
     for _ in range(nops):
         r = rng.random()
         seed = rng.getrandbits(16)
